@@ -25,6 +25,7 @@ MagVal(e) ==
   CASE e.mag = "0" -> Z(0) [] e.mag = "1" -> Z(1) [] e.mag = "8" -> Z(8) [] e.mag = "9" -> Z(9) [] e.mag = "24" -> Z(24) [] e.mag = "25" -> Z(25)
     [] e.mag = "v-1" -> Z(e.orig - 1) [] e.mag = "v+1" -> Z(e.orig + 1)
     [] e.mag = "rest-1" -> Z(e.rest - 1) [] e.mag = "rest" -> Z(e.rest) [] e.mag = "rest+1" -> Z(e.rest + 1)
+    [] e.mag = "2^20+1" -> Z(1048577) [] e.mag = "2^27" -> Z(134217728)
     [] e.mag = "2^31-1" -> V("M31", 0) [] e.mag = "2^31" -> V("M31", 1)
     [] e.mag = "2^32-9" -> V("M32", -8) [] e.mag = "2^32-1" -> V("M32", 0) [] e.mag = "2^32" -> V("M32", 1)
     [] e.mag = "2^40" -> V("M32", 1000000)          \* between 2^32 and 2^63: only its position relative to the anchors matters
@@ -41,6 +42,8 @@ RowOf(e) ==
     [] e.fld = "uncompressed_size" /\ e.rec = "Chunk" /\ e.inchunk = 0 /\ Indexed(e.ep) -> "IndexedBufferSize"
     [] e.fld = "chunk_length" /\ e.rec = "ChunkIndex" /\ Indexed(e.ep) -> "ChunkIndexChunkLen"
     [] e.fld = "record_length" /\ e.rec = "Attachment" /\ e.ep \in {"lex", "lex-validate", "lex-invalid"} -> "AttachmentRecordLen"
+    \* the configured record limit applies to every record the lexer frames, at top level and inside a chunk alike
+    [] e.fld = "record_length" /\ e.rec \notin {"Attachment", "Chunk"} /\ e.ep = "lex-limits" -> "LexRecordLenLimited"
     [] OTHER -> "none"
 
 ModelOutcome(e) ==
@@ -51,6 +54,7 @@ ModelOutcome(e) ==
     [] r = "IndexedBufferSize" -> IndexedBufferSize(v)
     [] r = "ChunkIndexChunkLen" -> ChunkIndexChunkLen(v, e.size, e.size - e.rest)
     [] r = "AttachmentRecordLen" -> AttachmentRecordLen(v, e.seek)
+    [] r = "LexRecordLenLimited" -> LexRecordLen(v, 1048576)
     [] OTHER -> Ok(Z(0))
 
 Judge(e) ==
